@@ -23,7 +23,8 @@ class XGen {
       case 4: return "#" + hexs((uint32_t)r.below(0x10000));
       case 5: if (r.chance(1, 8)) { static const char *esc[] = {"\\t", "\\r", "\\n", "\\\\", "\\'", "\\\""}; return "'" + std::string(esc[r.below(6)]) + "'"; }
               return "'" + std::string(1, (char)('a' + r.below(26))) + "'";
-      case 6: return std::to_string(60000 + r.below(80000));       // straddles the immediate/pool boundary
+      case 6: if (r.chance(1, 6)) { static const char *lim[] = {"#FFFFFFFF", "#7FFFFFFF", "#80000000", "2147483647", "4294967295", "2147483648", "#FFFF", "#10000", "65535", "65536", "'~'", "' '"}; return lim[r.below(12)]; }
+              return std::to_string(60000 + r.below(80000));       // straddles the immediate/pool boundary
       default: return std::to_string(r.below(100));
     }
   }
@@ -160,15 +161,29 @@ public:
     if (r.chance(1, 2)) {
       body += "proc strout(array s, val n) is var i; { i := 0; while i < n do { put(s[i], 0); i := i + 1 } }\n";
       body += "func strword(array s, val k) is return s[k]\n";
+      body += "proc strout2(array s, val n) is strout(s, n)\n";      // an array formal passed on
       auto lit = [&]() { std::string t; size_t n = (size_t)r.below(9); for (size_t q = 0; q < n; q++) { char c = (char)('a' + r.below(26)); if (r.chance(1, 12)) { static const char *esc[] = {"\\n", "\\n", "\\t", "\\r", "\\\\", "\\'", "\\\""}; t += esc[r.below(7)]; continue; } t.push_back(c); } return "\"" + t + "\""; };
       int nc = 1 + (int)r.below(3);
       for (int q = 0; q < nc; q++) {
-        if (r.chance(1, 2)) preludeCalls.push_back("strout(" + lit() + ", " + std::to_string(1 + r.below(2)) + ")");
+        if (r.chance(1, 2)) preludeCalls.push_back(std::string(r.chance(1, 4) ? "strout2(" : "strout(") + lit() + ", " + std::to_string(1 + r.below(2)) + ")");
         else preludeCalls.push_back("put(strword(" + lit() + ", 0), " + outStream() + ")");
       }
     }
     // A string literal as the right operand of an operator (its address is loaded into breg).
     if (!globals.empty() && r.chance(1, 10)) preludeCalls.push_back(globals[0] + " := " + std::to_string(r.below(9)) + " + \"" + std::string(1 + r.below(6), 'z') + "\"");
+    // A big global array written through a variable subscript and read through a constant one (a
+    // large immediate index).
+    std::string bigDecl;
+    if (r.chance(1, 12)) {
+      static const unsigned ns[] = {33000, 40000, 66000, 70000};
+      unsigned n = ns[r.below(4)];
+      static const unsigned off[] = {1, 2, 232, 7000};
+      unsigned k = r.chance(1, 2) ? n - off[r.below(4)] : 32767 + (unsigned)r.below(3);
+      bigDecl = "var bi;\narray big[" + std::to_string(n) + "];\n";
+      preludeCalls.push_back("bi := " + std::to_string(k));
+      preludeCalls.push_back("big[bi] := " + std::to_string(33 + r.below(90)));
+      preludeCalls.push_back("put(big[" + std::to_string(k) + "], 0)");
+    }
     if (r.chance(1, 3)) {
       body += "func rec(val n) is if n < 2 then return n else return rec(n - 1) + rec(n - 2)\n";
       preludeCalls.push_back("put(rec(" + std::to_string(r.below(9)) + "), 0)");
@@ -198,6 +213,7 @@ public:
     // Declarations come first; loop counters were appended to globals while generating.
     for (auto &g : globals) decls += "var " + g + ";\n";
     for (size_t a = 0; a < arrays.size(); a++) decls += "array " + arrays[a] + "[" + std::to_string(arraySize[a]) + "];\n";
+    decls += bigDecl;
     return decls + body;
   }
 };
@@ -219,6 +235,11 @@ inline std::string makeAsm(sim::Rng &r) {
   s += "start\n";
   static const int streams[] = {0, 0, 255, 768, 1024, 1536, 1792, 2048};
   static const int instreams[] = {0, 0, 0, 255, 256, 512, 1280, 1300};
+  // A long counted loop now and then: the run passes 65 536 instructions.
+  if (r.chance(1, 12)) {
+    unsigned n = 9500 + (unsigned)r.below(3000);
+    s += "LDAC " + std::to_string(n) + "\nSTAM d0\nLl0\nLDAM d0\nBRZ Ll1\nLDBC 1\nOPR SUB\nSTAM d0\nBR Ll0\nLl1\n";
+  }
   int nb = 2 + (int)r.below(8), lab = 0;
   auto data = [&]() { return "d" + std::to_string(r.below((uint64_t)nd)); };
   // Now and then the program starts by using the registers as reset left them (all zero): their
@@ -245,7 +266,15 @@ inline std::string makeAsm(sim::Rng &r) {
         if (r.chance(1, 4)) s += "OPR SVC\n";          // read twice: the second value overwrites the first
         s += "LDAM 1\nLDAI 1\nSTAM " + data() + "\n";
         break;
-      case 3:           // arithmetic on data words
+      case 3:           // arithmetic on data words; now and then a far word written through a computed address and read back through a large immediate index
+        if (r.chance(1, 4)) {
+          static const unsigned ks[] = {32767, 32768, 40000, 65535, 65536, 70000, 131071, 131072};
+          unsigned k = ks[r.below(8)], base = 40000 + (unsigned)r.below(20000);
+          s += "LDAC " + std::to_string(r.below(200000)) + "\nLDBC " + std::to_string(base + k) + "\nSTAI 0\n";
+          if (r.chance(1, 2)) s += "LDAC " + std::to_string(base) + "\nLDAI " + std::to_string(k) + "\nSTAM " + data() + "\n";
+          else s += "LDBC " + std::to_string(base) + "\nLDBI " + std::to_string(k) + "\nLDAC 0\nOPR ADD\nSTAM " + data() + "\n";
+          break;
+        }
         s += "LDAM " + data() + "\nLDBM " + data() + "\nOPR " + (r.chance(1, 2) ? "ADD" : "SUB") + "\nSTAM " + data() + "\n";
         break;
       case 4: {         // counted loop printing a character
@@ -269,6 +298,7 @@ inline std::string makeAsm(sim::Rng &r) {
           f = "fn" + std::to_string(r.chance(1, 8) && lab > 3 ? (unsigned)r.below(3) : (unsigned)lab);
           if (r.chance(1, 8)) { static const unsigned len[] = {24, 27, 28, 29, 30, 31, 32, 33, 64, 255, 300}; f += "_" + std::string(len[r.below(11)], (char)('a' + r.below(26))); }
           decl = std::string(kind == 1 ? "PROC " : "FUNC ") + f;
+          if (r.chance(1, 10)) decl = "PROC e" + std::to_string(lab) + "\n" + decl;      // a procedure of size zero in front: two symbols at one offset
         }
         s += "BR " + over + "\n" + decl + "\nSTAM " + data() + "\nOPR BRB\n" + over + "\n";
         s += "LDAP " + ret + "\nSTAM " + link + "\nLDBM " + link + "\nLDAC " + std::to_string(r.below(1000)) + "\nBR " + f + "\n" + ret + "\n";
@@ -309,9 +339,25 @@ inline std::string makeSizedAsm(sim::Rng &r) {
   s += "LDAC " + std::to_string(r.below(256)) + "\nLDBM 1\nSTAI 2\nLDAC 0\nOPR SVC\n";                 // 5 directives
   return s;
 }
+// Assembly with groups of PROC/FUNC declarations that share one byte offset (aliases, procedures of
+// size zero): the symbol table has several entries per offset.
+inline std::string makeAliasAsm(sim::Rng &r) {
+  std::string s = "BR start\nDATA " + std::to_string(150000 + r.below(49000)) + "\nstart\n";
+  unsigned groups = 1 + (unsigned)r.below(4), id = 0;
+  for (unsigned g = 0; g < groups; g++) {
+    unsigned n = 2 + (unsigned)r.below(r.chance(1, 3) ? 30 : 4);
+    for (unsigned q = 0; q < n; q++) s += std::string(r.chance(1, 2) ? "PROC " : "FUNC ") + (char)('a' + r.below(26)) + "n" + std::to_string(id++) + "\n";
+    unsigned body = (unsigned)r.below(4);
+    for (unsigned q = 0; q < body; q++) s += "LDAC " + std::to_string(r.below(300)) + "\n";
+  }
+  s += "LDAC " + std::to_string(r.below(256)) + "\nLDBM 1\nSTAI 2\nLDAC 0\nOPR SVC\n";
+  return s;
+}
 inline std::string makeSizedX(sim::Rng &r) {
   unsigned a = (unsigned)r.below(r.chance(1, 2) ? 60 : 500), b = (unsigned)r.below(4);
-  std::string s = "val put = 1; val exit = 0;\nvar g;\nproc main() is\n{ g := " + std::to_string(r.below(100));
+  std::string s = "val put = 1; val exit = 0;\nvar g;\n";
+  if (r.chance(1, 5)) { unsigned np = 200 + (unsigned)r.below(200); for (unsigned q = 0; q < np; q++) s += "proc q" + std::to_string(q) + "() is skip\n"; }   // a long symbol table
+  s += "proc main() is\n{ g := " + std::to_string(r.below(100));
   for (unsigned q = 0; q < a; q++) s += r.chance(1, 2) ? "; g := " + std::to_string(r.below(50)) : std::string("; g := g + 1");
   for (unsigned q = 0; q < b; q++) s += "; put(g, 0)";
   s += "; exit(g) }\n";
